@@ -109,3 +109,5 @@ def run(db, ctx):
     from . import C07
     common.shared_rule(db, ctx, C07.r75, 'R2.11', 'Threshold::threshold lists every cell of the block whose 8-bit score is >= the byte threshold, '
                        'all rows and all C columns, with the position it stands for (shared with R7.5)', ['R7.5'])
+    from . import C03
+    C03.hit_order(db, ctx, 'R2.12')
